@@ -102,6 +102,17 @@ def _gen_case(rnd, BASE, comps, many=False):
         else:
             imps.add((f"{top}.other", f"{BASE}.by1"))
         pert.append(k)
+    if not many and rnd.random() < 0.25:
+        # an architecture that kept its external libraries, one of which is named like a diagram component (json, core, ...):
+        # with_base_module(p) still means p.<component>
+        for c in rnd.sample(comps, rnd.randint(1, min(2, len(comps)))):
+            ext = c.split(".")[0]
+            if ext == top:
+                continue
+            mods += [ext] + ([f"{ext}.impl"] if rnd.random() < 0.5 else [])
+            for _ in range(rnd.randint(0, 2)):
+                imps.add((member(rnd.choice(comps)), rnd.choice([m for m in mods if m == ext or m.startswith(ext + ".")])))
+            pert.append("external-named-like-component")
     imps = sorted(e for e in imps if e[0] != e[1])
     return {"comps": comps, "rel": rel, "mods": mods, "imps": imps, "pert": pert, "base": BASE}
 
@@ -269,6 +280,8 @@ def run_shard(spec, acc):
         if i % 3 == 0:
             reuse_sequence(case, acc, rnd.randint(0, 10**6))
         acc.hist("perturbations", len(case["pert"]))
+        if "external-named-like-component" in case["pert"]:
+            acc.count("architectures_with_an_external_module_named_like_a_component")
         if i % 67 == 0:
             acc.sample({"components": case["comps"], "drawn": case["rel"], "imports": case["imps"], "perturbations": case["pert"]})
 
@@ -301,6 +314,8 @@ def floors(acc, tier):
     for c in ("diagrams_with_crlf_line_endings", "diagrams_named_relative_to_the_working_directory"):
         if acc.counters[c] < 50:
             why.append(f"{c}: only {acc.counters[c]}")
+    if acc.counters["architectures_with_an_external_module_named_like_a_component"] < 50:
+        why.append(f"only {acc.counters['architectures_with_an_external_module_named_like_a_component']} architectures with an external module named like a component")
     if acc.counters["diagram_rules_configured_interleaved"] < 50:
         why.append(f"only {acc.counters['diagram_rules_configured_interleaved']} diagram rules configured while another one was being configured")
     if acc.counters["c07_judged"] < 1000:
